@@ -120,13 +120,29 @@ class EvalContext(metaclass=NamespaceableMeta):
         if self._require_all_safe and not cfgobj.ayns.safe:
             raise errors.UnsafeError(f'Note: the current context requires all evaluated nodes to be safe - see chained exceptions for more information', cfgobj, str(path))
 
+    def _check_cached_safe(self, path, visited):
+        ''' Check everything an already evaluated value was computed from: the node itself, all nodes below it
+            and the targets of the references among them. '''
+        node = self.cfg.ayns.get_node(path, incomplete=None)
+        if not isinstance(node, ConfigNode) or id(node) in visited:
+            return
+        visited.add(id(node))
+        from .nodes.composed import ComposedNode
+        from .nodes.xref import XRefNode
+        nodes = [(path, node)]
+        if isinstance(node, ComposedNode):
+            nodes.extend(node.ayns.nodes_with_paths(prefix=path))
+        for p, n in nodes:
+            self.check_safe(n, p)
+            if isinstance(n, XRefNode):
+                self._check_cached_safe(NodePath.get_list_path(str(n)), visited)
+
     def get_node(self, *path, **kwargs):
         path = NodePath.get_list_path(*path)
         if str(path) in self._eval_cache:
-            # an already evaluated value does not tell whether the node it comes from is safe
-            node = self.cfg.ayns.get_node(path, incomplete=None)
-            if isinstance(node, ConfigNode):
-                self.check_safe(node, path)
+            # an already evaluated value does not tell whether the nodes it comes from are safe
+            if self._require_all_safe:
+                self._check_cached_safe(path, set())
             return self._eval_cache[str(path)]
         return self.cfg.ayns.get_node(path, **kwargs)
 
